@@ -62,6 +62,9 @@ CLAIMED = {
  "C19": ("exploration", "scenario-first property-based testing with a validity-predicate oracle (exact partition search) over the output CSV",
          "Generated sets of RSU / ESPP / option-exercise confirmations and trade confirmations (pre- and post-2023 layouts, benefits close together, equal share counts, extra manual sales, shuffled file names) are rendered as .txt and run through run_with_args; the output must contain one purchase per benefit, every manual row must equal a distinct trade, and the remaining trades must be partitionable into one valid group per sell-to-cover row.",
          "Layouts are those of the repository's fixtures; the tool's own 'cannot match / cannot decide' errors are accepted outcomes.", "DESIGN.md section 4 C19"),
+ "C20": ("exploration", "property-based testing of the statement parser against generated tables, plus generated/exhaustive page-hint cases through real lopdf-generated PDFs",
+         "Generated allocation tables in the documented layout (multi-line descriptions with digits, single 100% holding, figures on own line) must be returned holding by holding with total and month; page counts x hint groups (out of range, duplicate, unsorted) must yield every existing page once with its own text through safe_page_chunks_with_remainder_pn and OptimizedPageIter over real PDFs; the chunk helper is swept exhaustively within stated bounds.",
+         "One known finding (F-20b: descriptions ending in two bare numbers on a single 100% holding) is excluded by a stated ambiguity predicate.", "DESIGN.md section 4 C20"),
 }
 NOT_YET = "check not built yet in this round (planned: see DESIGN.md section 4)"
 
@@ -87,7 +90,7 @@ def main():
         "setup_cmd": "bash bin/setup.sh",
         "hooks": {
             "guard": "cargo feature verif_hooks (declared in /repo/Cargo.toml; off by default)",
-            "enable": "harness/Cargo.toml depends on acb = { path = \"/repo\", features = [\"default\", \"testlib\", \"verif_hooks\"] } once the hook commit exists; until then no hook is used",
+            "enable": "harness/Cargo.toml depends on acb = { path = \"/repo\", features = [\"default\", \"testlib\", \"verif_hooks\"] }; only C14 uses the hooks (crash injection in the rates cache write path)",
             "baseline_off_cmd": "cd /repo && cargo test --workspace --no-fail-fast --offline",
             "source_commits": hooks_commits,
             "add_only": True,
